@@ -2,6 +2,7 @@ package props
 
 import (
 	"fmt"
+	"reflect"
 	"strings"
 
 	"verifharness/core"
@@ -29,6 +30,10 @@ func (c05) NumCases(tier string) int      { return tierN(tier, 2500, 500000) }
 func (c05) MinNontrivial(tier string) int { return tierN(tier, 400, 5000) }
 
 func (p c05) Run(c *core.Ctx) {
+	if c.Index%25 == 24 {
+		p.mixin(c)
+		return
+	}
 	if c.Index%5 == 4 {
 		p.retry(c)
 		return
@@ -83,7 +88,32 @@ func (p c05) Run(c *core.Ctx) {
 			}
 		}
 	}
-	r := world.Start(sc, world.Options{Extra: extra})
+	r := world.Build(sc, world.Options{Extra: extra})
+	if c.Rng.Intn(4) == 0 {
+		// components wired by hand before registration (a := &A{Z: z}; SetComponents(a, z)): some by-name
+		// points already refer to the very instance the container will choose - which it still has to
+		// create and initialise before the holder's own callbacks
+		pre := 0
+		for i := range sc.Nodes {
+			for slot, ts := range sc.Nodes[i].Tags {
+				si := world.SlotByName(slot)
+				if ts.Tag != "wire" || (si.Kind != "ptr" && si.Kind != "iface") || c.Rng.Intn(2) == 0 {
+					continue
+				}
+				name := strings.SplitN(ts.Val, ",", 2)[0]
+				if t, ok := nodeNamed(sc, name); ok && name != "" {
+					f := reflect.ValueOf(r.Nodes[i].Slot()).Elem().FieldByName(slot)
+					tv := reflect.ValueOf(r.Nodes[t])
+					if f.IsValid() && tv.Type().AssignableTo(f.Type()) {
+						f.Set(tv)
+						pre++
+					}
+				}
+			}
+		}
+		c.Count("points_wired_by_hand_before_registration", pre)
+	}
+	r.Go()
 	c.Count("starts", 1)
 	c.Count("outcome_"+r.Outcome(), 1)
 	if r.Outcome() != "ok" {
@@ -518,4 +548,30 @@ func (p c05) retry(c *core.Ctx) {
 	if nl > 0 && faults > 0 {
 		c.Nontrivial("retry:" + sc.GraphSig())
 	}
+}
+
+// mixin: the points of a component that come from a package-private embedded mix-in are set, and the
+// (lazy) dependency behind them is initialised, before the component's own Init.
+func (p c05) mixin(c *core.Ctx) {
+	g := world.NewG(c.Rng)
+	g.AddNode([]int{8, 1, 0}[c.Rng.Intn(3)], "mix-dep") // T08 is lazy; all have Init and implement IA
+	for x := 0; x < c.Rng.Intn(3); x++ {
+		g.AddRandomNode(world.TypesEagerPlain, 0.2)
+	}
+	g.ShuffleOrders()
+	g.Sc.Config = "mix:\n  key: v\n"
+	h := &world.MixinHolder{}
+	r := world.Start(g.Sc, world.Options{Extra: []any{h}})
+	c.Count("starts", 1)
+	c.Count("mixin_starts", 1)
+	if r.Outcome() != "ok" {
+		c.Fail("", "start of a satisfiable scenario did not succeed: "+core.Short(r.OutcomeDetail(), 400), failDetail(g.Sc, r, nil))
+		return
+	}
+	want := `dep-set=true dep-initialised=true cfg="v" opt-nil=true`
+	if h.Inits != 1 || h.SeenAtInit != want {
+		c.Fail("", fmt.Sprintf("component with an embedded package-private mix-in: Init ran %d time(s) and saw %s; expected once with %s", h.Inits, h.SeenAtInit, want), failDetail(g.Sc, r, map[string]any{"events": renderEvents(r.Log.Events(), 60)}))
+		return
+	}
+	c.Nontrivial("mixin|" + g.Sc.GraphSig())
 }
